@@ -3,6 +3,7 @@ package trafficprotocol
 import (
 	"context"
 	"encoding/json"
+	"errors"
 	"fmt"
 	"time"
 
@@ -179,6 +180,10 @@ func (s *Service) handler(ctx context.Context, p p2p.Peer, stream p2p.Stream) (e
 	err = json.Unmarshal(req.SignedCheque, &signedCheque)
 	if err != nil {
 		return err
+	}
+	// the JSON literal null unmarshals into a nil pointer without an error
+	if signedCheque == nil || signedCheque.CumulativePayout == nil {
+		return errors.New("invalid cheque")
 	}
 
 	return s.traffic.ReceiveCheque(ctx, p.Address, signedCheque)
